@@ -128,4 +128,4 @@ package gssapi
 //@   trusted_frame see checksum
 //@   ensures err == nil ==> tok != nil && tok.Flags == 0 && tok.SndSeqNum == 0 && tok.Payload == payload
 //@   ensures err == nil ==> exists t Ref, d Seq :: et_known(t) && et_id(t) == key.KeyType && mic_cksum_input(d, payload, 0, 0)
-//@        && bytes(tok.Checksum) == et_cksum(t, bytes(key.KeyValue), 23, d)
+//@        && bytes(tok.Checksum) == et_cksum(t, bytes(key.KeyValue), 25, d)
